@@ -83,6 +83,8 @@ class Tokenizer:
         line = ""
         while True:
             tok = next(self._tokengen)
+            if tok.type == Token.ENDMARKER:
+                raise self.syntax_error("unexpected EOF in macro call", tok)
             if tok.type == Token.OP and tok.string[-1] in "([{":  # push paren level
                 paren_level.append(tok.string[-1])
             if paren_level:
@@ -90,7 +92,7 @@ class Tokenizer:
                     if paren_level[-1] == opener:
                         paren_level.pop()
                     else:
-                        raise SyntaxError(f"Unmatched closing paren {tok.string} at {tok.start}")
+                        raise self.syntax_error(f"Unmatched closing paren {tok.string} at {tok.start}", tok)
             else:
                 if tok.is_exact_type(")"):
                     self._stack.append(tok)
@@ -125,6 +127,13 @@ class Tokenizer:
         lines = {}
         start = end = self._tokens[-1].end
         for idx, tok in enumerate(self._tokengen):
+            if tok.type == Token.ENDMARKER:
+                # end of input inside the block: hand the marker back instead of swallowing it
+                if not lines:
+                    raise self.syntax_error("expected an indented block after 'with' statement", tok)
+                self._stack.append(tok)
+                self._with_macro = False
+                break
             if (idx == 0) and tok.type == Token.NEWLINE:
                 continue
             elif tok.type == Token.INDENT:
@@ -165,6 +174,11 @@ class Tokenizer:
 
             string = textwrap.dedent(string)
         return TokenInfo(Token.MACRO_PARAM, string, start, end, string)
+
+    def syntax_error(self, message: str, tok: TokenInfo) -> SyntaxError:
+        """A located SyntaxError for problems found while capturing raw macro text."""
+        details = (self._path or "<unknown>", tok.start[0], tok.start[1] + 1, tok.line, tok.end[0], tok.end[1] + 1)
+        return SyntaxError(message, details)
 
     def diagnose(self) -> TokenInfo:
         if not self._tokens:
